@@ -13,10 +13,13 @@ import (
 func (e *Exec) submitFinal(s *State, kind, label string, pc []string, extra []string) *FinalQuery {
 	q := &FinalQuery{Harness: e.harness, Kind: kind, Label: label, PathID: s.ID, Choices: append([]int{}, s.Choices...)}
 	var evals []string
+	e.mu.Lock()
+	inputs := e.inputs
+	e.mu.Unlock()
 	if kind != "overflow" {
 		// only the inputs this path's formula mentions (inputs created on sibling paths are unconstrained here)
 		body := strings.Join(pc, " ") + " " + strings.Join(extra, " ")
-		for _, in := range e.inputs {
+		for _, in := range inputs {
 			if containsSym(body, in) {
 				evals = append(evals, in)
 			}
@@ -24,15 +27,19 @@ func (e *Exec) submitFinal(s *State, kind, label string, pc []string, extra []st
 	}
 	q.Inputs = evals
 	text := e.sol.buildQuery(pc, extra, evals)
+	e.mu.Lock()
 	e.pending = append(e.pending, q)
+	e.mu.Unlock()
 	e.pool.submit(q, text)
 	return q
 }
 
 func (e *Exec) newInput(prefix, tag string, boolean bool) string {
 	n := e.sol.fresh(prefix, boolean)
+	e.mu.Lock()
 	e.inputs = append(e.inputs, n)
 	e.inputTag = append(e.inputTag, tag)
+	e.mu.Unlock()
 	return n
 }
 
@@ -86,8 +93,13 @@ func init() {
 		s.Reached[lbl] = true
 		e.stats["reach:"+lbl]++
 		// vacuity witness: the path condition at this point must be satisfiable (a few attempts per label)
-		if e.reachWanted[lbl] < 3 {
+		e.mu.Lock()
+		want := e.reachWanted[lbl] < 3
+		if want {
 			e.reachWanted[lbl]++
+		}
+		e.mu.Unlock()
+		if want {
 			e.submitFinal(s, "reach", lbl, append([]string{}, s.PC...), nil)
 		}
 		return nil, false
@@ -149,7 +161,9 @@ func init() {
 		default:
 			panic("unknown bound " + name)
 		}
+		e.mu.Lock()
 		e.boundsUsed[name] = int(v.Int64())
+		e.mu.Unlock()
 		return nil, false
 	})
 	reg(vp+"Option", func(e *Exec, s *State, f *Frame, x *ssa.Call, a []Val) ([]*State, bool) {
@@ -163,11 +177,15 @@ func init() {
 		default:
 			panic("unknown option " + a[0].(StrV).S)
 		}
+		e.mu.Lock()
 		e.optionsUsed[a[0].(StrV).S] = true
+		e.mu.Unlock()
 		return nil, false
 	})
 	reg(vp+"Note", func(e *Exec, s *State, f *Frame, x *ssa.Call, a []Val) ([]*State, bool) {
+		e.mu.Lock()
 		e.notes[a[0].(StrV).S] = true
+		e.mu.Unlock()
 		return nil, false
 	})
 	reg(vp+"Panicked", func(e *Exec, s *State, f *Frame, x *ssa.Call, a []Val) ([]*State, bool) {
